@@ -2438,5 +2438,87 @@ theorem forestHasTree_parse (hw : T.wf g = true) (hidem : ∀ p, inp.skip (inp.s
   obtain ⟨a, ha, l, hl, htree⟩ := forestHasTree_sound sF t ht
   exact parseGLR_forest_sound hw hidem consume lexDis fuel sF h a ha l hl t htree
 
+/-! ### What the driver emits -/
+
+/-- What `reachableAlts` emits comes from packed possibilities of links: every emitted alternative
+`(node, production, children)` is `(k, pid, kids.map key)` for a possibility `nonterm pid kids` of
+some link, `k` being that link's key or (for the root alternatives) the key of the last root link. -/
+theorem go_mem (key : Nat → Sym × Nat × Nat)
+    (altsOf : Sym × Nat × Nat → Nat → List ((Sym × Nat × Nat) × Nat × List (Sym × Nat × Nat)))
+    (kidsOf : Nat → List Nat) (P : (Sym × Nat × Nat) × Nat × List (Sym × Nat × Nat) → Prop)
+    (hP : ∀ lid, ∀ a ∈ altsOf (key lid) lid, P a) :
+    ∀ (f : Nat) (todo seen : List Nat) (out : List ((Sym × Nat × Nat) × Nat × List (Sym × Nat × Nat))),
+      (∀ a ∈ out, P a) → ∀ a ∈ reachableAlts.go key altsOf kidsOf f todo seen out, P a := by
+  intro f
+  induction f with
+  | zero => intro todo seen out h a ha; simp only [reachableAlts.go] at ha; exact h a ha
+  | succ f ih =>
+    intro todo seen out h a ha
+    cases todo with
+    | nil => simp only [reachableAlts.go] at ha; exact h a ha
+    | cons lid todo =>
+      simp only [reachableAlts.go] at ha
+      split at ha
+      · exact ih todo seen out h a ha
+      · refine ih _ _ _ ?_ a ha
+        intro b hb
+        rcases List.mem_append.mp hb with hb | hb
+        · exact hP lid b hb
+        · exact h b hb
+
+/-- The statement for `reachableAlts`. -/
+theorem reachableAlts_from_links (T : Table) (s : GState) (fuel : Nat) :
+    ∀ a ∈ reachableAlts T s fuel, ∃ lid pid kids, Poss.nonterm pid kids ∈ (s.link lid).poss ∧
+      a.2.1 = pid ∧
+      a.2.2 = kids.map (fun k => (T.sym (s.node (s.link k).head).st, (s.link k).s, (s.link k).e)) := by
+  intro a ha
+  simp only [reachableAlts] at ha
+  split at ha
+  · cases ha
+  · rename_i r hr
+    have hone : ∀ (k : Sym × Nat × Nat) (lid : Nat),
+        ∀ b ∈ (s.link lid).poss.filterMap (fun ps =>
+          match ps with
+          | .nonterm p kids => some (k, p, kids.map (fun l =>
+              (T.sym (s.node (s.link l).head).st, (s.link l).s, (s.link l).e)))
+          | .term _ _ _ => none),
+        ∃ lid pid kids, Poss.nonterm pid kids ∈ (s.link lid).poss ∧ b.2.1 = pid ∧
+          b.2.2 = kids.map (fun k => (T.sym (s.node (s.link k).head).st, (s.link k).s, (s.link k).e)) := by
+      intro k lid b hb
+      simp only [List.mem_filterMap] at hb
+      obtain ⟨ps, hps, hm⟩ := hb
+      cases ps with
+      | term _ _ _ => simp at hm
+      | nonterm p kids =>
+        simp only [Option.some.injEq] at hm
+        subst hm
+        exact ⟨lid, p, kids, hps, rfl, rfl⟩
+    refine go_mem _ _ _ _ (fun lid b hb => hone _ lid b hb) fuel _ _ _ ?_ a ha
+    intro b hb
+    simp only [List.mem_flatMap] at hb
+    obtain ⟨lid, _, hb⟩ := hb
+    exact hone _ lid b hb
+
+theorem link_ge (s : GState) (i : Nat) (h : s.links.size ≤ i) : (s.link i).poss = [] := by
+  have : s.link i = default := by
+    simp only [GState.link, Array.getD]
+    split
+    · omega
+    · rfl
+  rw [this]; rfl
+
+/-- Over the final state of an accepting run every alternative the driver emits applies a production
+of the grammar to as many children as its right-hand side has. -/
+theorem reachableAlts_wellformed {consume : Bool} (s : GState) (hinv : GInv g T inp consume s) (fuel : Nat) :
+    ∀ a ∈ reachableAlts T s fuel, ∃ pr, g.prod? a.2.1 = some pr ∧ a.2.2.length = pr.rhs.length := by
+  intro a ha
+  obtain ⟨lid, pid, kids, hmem, h1, h2⟩ := reachableAlts_from_links T s fuel a ha
+  have hlt : lid < s.links.size := by
+    by_cases h : lid < s.links.size
+    · exact h
+    · rw [link_ge s lid (by omega)] at hmem; cases hmem
+  obtain ⟨pr, e, hp, hkl, _⟩ := hinv.poss lid hlt _ hmem
+  exact ⟨pr, by rw [h1]; exact hp, by rw [h2, List.length_map]; exact hkl⟩
+
 end GLR
 end Pg
